@@ -3,7 +3,8 @@
    theorems hold for ANY behaviour of the analysis step.  Contracts are explicit hypotheses. *)
 From Coq Require Import List Arith Bool ZArith.
 From Gen Require Import Bounds.
-From C20 Require Import Model Proofs.
+From Coq Require Import Permutation.
+From C20 Require Import Model Proofs ProofsPerm.
 Import ListNotations.
 
 (* (i) semanal_main.process_top_levels: for every oracle the `while worklist:` header is evaluated at most
@@ -116,6 +117,12 @@ Proof.
   split; [exact (sort_messages_total errs)|]. split; [exact (render_messages_total show_ctx errs)|exact (file_messages_total show_ctx errs)].
 Qed.
 Print Assumptions message_pipeline_total.
+
+(* (iv) sorting neither loses nor invents a message *)
+Theorem sort_messages_permutation : forall errs r,
+  (sort_messages errs = Ok r -> Permutation r errs) /\ (sort_within_context errs = Ok r -> Permutation r errs).
+Proof. intros errs r. split; [exact (sort_messages_perm errs r)|exact (sort_within_context_perm errs r)]. Qed.
+Print Assumptions sort_messages_permutation.
 
 Theorem remove_duplicates_only_drops : forall errs, incl (remove_duplicates errs) errs.
 Proof. exact remove_duplicates_incl. Qed.
